@@ -400,6 +400,17 @@ void* symgmp_z_export(void* r, size_t* c, int o, size_t s, int e, size_t n, mpz_
 }
 void symgmp_z_import(mpz_ptr r, size_t c, int o, size_t s, int e, size_t n, const void* p) { make_conc(r); __gmpz_import(r, c, o, s, e, n, p); }
 
+// ---------------------------------------------------------------- bit-level (Bit_Row) functions
+static void need_conc(mpz_srcptr a, const char* fn) { if (is_sym(a)) { fprintf(stderr, "symrt: %s on a symbolic operand is not modelled\n", fn); abort(); } }
+void symgmp_z_com(mpz_ptr r, mpz_srcptr a) { need_conc(a, "mpz_com"); make_conc(r); __gmpz_com(r, a); }
+void symgmp_z_and(mpz_ptr r, mpz_srcptr a, mpz_srcptr b) { need_conc(a, "mpz_and"); need_conc(b, "mpz_and"); make_conc(r); __gmpz_and(r, a, b); }
+void symgmp_z_ior(mpz_ptr r, mpz_srcptr a, mpz_srcptr b) { need_conc(a, "mpz_ior"); need_conc(b, "mpz_ior"); make_conc(r); __gmpz_ior(r, a, b); }
+void symgmp_z_xor(mpz_ptr r, mpz_srcptr a, mpz_srcptr b) { need_conc(a, "mpz_xor"); need_conc(b, "mpz_xor"); make_conc(r); __gmpz_xor(r, a, b); }
+void symgmp_z_setbit(mpz_ptr r, mp_bitcnt_t k) { need_conc(r, "mpz_setbit"); __gmpz_setbit(r, k); }
+void symgmp_z_clrbit(mpz_ptr r, mp_bitcnt_t k) { need_conc(r, "mpz_clrbit"); __gmpz_clrbit(r, k); }
+void symgmp_z_combit(mpz_ptr r, mp_bitcnt_t k) { need_conc(r, "mpz_combit"); __gmpz_combit(r, k); }
+void symgmp_z_realloc2(mpz_ptr r, mp_bitcnt_t k) { make_conc(r); __gmpz_realloc2(r, k); }
+
 // ---------------------------------------------------------------- mpq
 #define QN(q) (&(q)->_mp_num)
 #define QD(q) (&(q)->_mp_den)
